@@ -66,6 +66,7 @@ def run(ctx):
             continue
         time_t, series = T.to_term(r[0]), T.to_term(r[1])
         irf = T.find_ops(series, "irfft")
+        time_t = _arange_as_linspace(time_t)
         if fname(time_t) == "arange" and len(time_t.args) == 3 and not time_t.args[2].is_Integer:
             a0, a1_, st_ = time_t.args
             ctx.bad("R16.1", f"surface_timeseries[{cname}][sample count]",
@@ -145,3 +146,20 @@ def run(ctx):
     ctx.require_count("R16.3", 12)
     ctx.require_count("R16.4", 16)
     ctx.require_count("R16.6", 1)
+
+
+def _arange_as_linspace(t):
+    """scale * arange(n) (integer count, unit step) is the grid linspace(0, n*scale, n, endpoint=False)"""
+    if isinstance(t, sp.Mul):
+        ar = [a for a in t.args if fname(a) == "arange"]
+        if len(ar) == 1:
+            scale = t / ar[0]
+            a = ar[0].args
+            n = None
+            if len(a) == 1:
+                n = a[0]
+            elif len(a) == 3 and a[0] == 0 and a[2] == 1:
+                n = a[1]
+            if n is not None and not T.find_ops(scale, "arange"):
+                return op("linspace", sp.Integer(0), n * scale, n, False)
+    return t
